@@ -83,13 +83,13 @@ theorem C06_lookup_kind {cfg s st j} (h : lookup cfg s st = some j) :
   exact hn
 
 example : lookup { ids := fun i => i, kinds := fun _ => .iq, derived := true, spaces := fun _ => .stream }
-    { init with table := fun _ => some 0 } ⟨.message, 0, true, .stream⟩ = none := by
+    { init with table := fun _ => some 0 } ⟨.message, 0, true, .stream, false⟩ = none := by
   simp [lookup]
 example : lookup { ids := fun i => i, kinds := fun _ => .iq, derived := true, spaces := fun _ => .stream }
-    { init with table := fun _ => some 0 } ⟨.iq, 0, true, .stream⟩ = some 0 := by
+    { init with table := fun _ => some 0 } ⟨.iq, 0, true, .stream, false⟩ = some 0 := by
   simp [lookup, nsMatch]
 example : lookup { ids := fun i => i, kinds := fun _ => .iq, derived := true, spaces := fun _ => .other }
-    { init with table := fun _ => some 0 } ⟨.iq, 0, true, .stream⟩ = none := by
+    { init with table := fun _ => some 0 } ⟨.iq, 0, true, .stream, false⟩ = none := by
   simp [lookup, nsMatch]
 
 /-- only result/error stanzas consult the table: any other stanza (an incoming get/set IQ, a
@@ -97,7 +97,7 @@ chat message, an available presence) goes to the handler even if its id is that 
 request, and every waiter keeps waiting -/
 theorem C06_only_responses_consult_table {cfg s st} (hidle : s.spc = .idle) (hn : st.resp = false) :
     ∃ s', step cfg s (.read st) = some s' ∧ s'.hlog = s.hist.length :: s.hlog ∧
-      s'.spc = (if autoReply st && (s.broken || s.outClosed) then .dead else .idle) ∧
+      s'.spc = (if st.bad || (autoReply st && (s.broken || s.outClosed)) then .dead else .idle) ∧
       s'.rpc = s.rpc ∧ s'.table = s.table := by
   have hl : lookup cfg s st = none := by simp [lookup, hn]
   simp only [step, hidle, hl]
@@ -128,7 +128,7 @@ theorem C06_lookup_none_iff {cfg s st} :
 
 theorem C06_unmatched_to_handler {cfg s st} (hidle : s.spc = .idle) (hl : lookup cfg s st = none) :
     ∃ s', step cfg s (.read st) = some s' ∧ s'.hlog = s.hist.length :: s.hlog ∧
-      s'.spc = (if autoReply st && (s.broken || s.outClosed) then .dead else .idle)
+      s'.spc = (if st.bad || (autoReply st && (s.broken || s.outClosed)) then .dead else .idle)
       ∧ s'.rpc = s.rpc := by
   simp only [step, hidle, hl]
   split <;> simp_all
@@ -140,12 +140,15 @@ theorem C06_matched_offered {cfg s st j} (hidle : s.spc = .idle) (hl : lookup cf
 /-- the cancel window, made visible: a response is discarded only while the context registered
 for the matched waiter is done -/
 theorem C06_cancel_window {cfg s s'} (hs : step cfg s .abandon = some s') :
-    ∃ j k, s.spc = .offering j k ∧ ctxDone cfg s j = true ∧ s'.dropped = k :: s.dropped ∧ s'.spc = .idle := by
+    ∃ j k, s.spc = .offering j k ∧ ctxDone cfg s j = true ∧ s'.dropped = k :: s.dropped ∧
+      (s'.spc = .idle ∨ s'.spc = .dead) := by
   simp only [step] at hs
   split at hs
   · rename_i j k hj
     split at hs
-    · simp at hs; subst hs; exact ⟨j, k, hj, by assumption, rfl, rfl⟩
+    · simp at hs; subst hs
+      refine ⟨j, k, hj, by assumption, rfl, ?_⟩
+      simp only []; split <;> simp
     · simp at hs
   · simp at hs
 
@@ -210,10 +213,12 @@ theorem C06_progress_serve {cfg s} (hd : cfg.derived = true) (hr : Reach cfg s) 
   · rename_i hdead
     exact serve_dead_closed hr hdead
 
-/-- once the caller closes the response the serve loop continues with the next stanza -/
+/-- once the caller closes the response the serve loop continues with the next stanza (unless the
+rest of that response cannot be read: then `Serve` returns the read error) -/
 theorem C06_continue_after_close {cfg s s'} (hr : Reach cfg s) {i j k : Nat}
     (hw : s.spc = .waitClose j k) (hs : step cfg s (.close i) = some s') :
-    i = j ∧ s'.spc = .idle ∧ ∀ st, (step cfg s' (.read st)).isSome := by
+    i = j ∧ (s'.spc = .idle ∨ s'.spc = .dead) ∧ (s'.spc = .idle → ∀ st, (step cfg s' (.read st)).isSome) ∧
+    (s'.spc = .dead → ∃ st, s.hist[k]? = some st ∧ st.bad = true) := by
   have hB := (inv_reach hr).2
   simp only [step] at hs
   split at hs
@@ -222,9 +227,15 @@ theorem C06_continue_after_close {cfg s s'} (hr : Reach cfg s) {i j k : Nat}
     rw [hw] at this
     injection this with hji hkk
     subst hji; subst hkk
-    simp [hw] at hs; subst hs
-    refine ⟨rfl, rfl, ?_⟩
-    intro st; simp only [step]; split <;> (try split) <;> simp
+    simp only [hw, if_true] at hs
+    cases hh : s.hist[k]? with
+    | none => simp [hh] at hs; subst hs; refine ⟨rfl, Or.inl rfl, ?_, by simp⟩
+              intro _ st; simp only [step]; split <;> (try split) <;> simp
+    | some st0 =>
+      cases hb : st0.bad
+      · simp [hh, hb] at hs; subst hs; refine ⟨rfl, Or.inl rfl, ?_, by simp⟩
+        intro _ st; simp only [step]; split <;> (try split) <;> simp
+      · simp [hh, hb] at hs; subst hs; exact ⟨rfl, Or.inr rfl, by simp, fun _ => ⟨st0, rfl, hb⟩⟩
   · simp at hs
 
 /-! ### after a failed transmission: what still holds on a broken (or closed) output
@@ -263,17 +274,21 @@ theorem C06_after_failed_transmission {cfg s} (hd : cfg.derived = true) (hr : Re
   ⟨fun i hw hc => (C06_progress_requester hw).1 hc, fun i k hw ho => (C06_progress_requester hw).2 k ho,
    C06_progress_serve hd hr, serve_dead_closed hr⟩
 
-/-- `Serve` returns (in this model) exactly when it must write its own reply to an unhandled
-get/set on an output that cannot take it -/
+/-- `Serve` returns (in this model) only when it must write its own reply to an unhandled get/set
+on an output that cannot take it, or when the rest of an element cannot be read (the element it
+gave to the handler, dropped in the cancel window, or handed to a caller) -/
 theorem C06_serve_ends_only_on_failed_own_write {cfg s a s'} (hs : step cfg s a = some s')
     (hd : s'.spc = .dead) (h0 : s.spc ≠ .dead) :
-    ∃ st, a = .read st ∧ autoReply st = true ∧ (s.broken = true ∨ s.outClosed = true) ∧ lookup cfg s st = none := by
+    (∃ st, a = .read st ∧ lookup cfg s st = none ∧
+      (st.bad = true ∨ (autoReply st = true ∧ (s.broken = true ∨ s.outClosed = true)))) ∨
+    (∃ k st, s.hist[k]? = some st ∧ st.bad = true ∧
+      ((∃ i, (a = .close i ∨ a = .readErr i) ∧ s.spc = .waitClose i k) ∨ (∃ j, a = .abandon ∧ s.spc = .offering j k))) := by
   cases a <;> simp only [step] at hs <;> (try split at hs) <;> (try split at hs) <;> (try split at hs) <;>
     (try split at hs) <;> (try simp at hs) <;> (try subst hs) <;> (try simp only [upd] at *) <;> grind
 
 example : ∃ s, run { ids := fun i => i, kinds := fun _ => .iq, derived := true } init
-    [.call 0, .sendFail 0, .dereg 0, .call 1, .sendFail 1, .read ⟨.message, 7, false, .stream⟩,
-     .read ⟨.iq, 7, false, .stream⟩] = some s ∧ s.spc = .dead ∧ s.hlog = [1, 0] ∧ s.broken = true := by
+    [.call 0, .sendFail 0, .dereg 0, .call 1, .sendFail 1, .read ⟨.message, 7, false, .stream, false⟩,
+     .read ⟨.iq, 7, false, .stream, false⟩] = some s ∧ s.spc = .dead ∧ s.hlog = [1, 0] ∧ s.broken = true := by
   simp [run, step, init, lookup, upd, autoReply]
 
 /-! ### no channel misuse -/
@@ -294,6 +309,31 @@ theorem C06_no_double_close {cfg} {i : Nat} {o : Outcome} :
     split at hr
     · rename_i s1 hs1; exact ih hr (stable hs1 h)
     · simp at hr
+
+/-- the errCloser path: reading the response into its error closes it — once; afterwards neither
+a further failed read nor the caller's `Close` closes the hand-off channel again, on any schedule -/
+theorem C06_response_closed_at_most_once {cfg} {i : Nat} {o : Outcome} :
+    ∀ {as s s'}, run cfg s as = some s' → s.rpc i = .done o true →
+      step cfg s' (.close i) = none ∧ step cfg s' (.readErr i) = none := by
+  have stable : ∀ {s a s'}, step cfg s a = some s' → s.rpc i = .done o true → s'.rpc i = .done o true := by
+    intro s a s' hs h
+    cases a <;> simp only [step] at hs <;> (try split at hs) <;> (try split at hs) <;> (try split at hs) <;>
+      (try split at hs) <;> (try simp at hs) <;> (try subst hs) <;> simp only [upd] at * <;> grind
+  intro as
+  induction as with
+  | nil => intro s s' hr h; simp [run] at hr; subst hr; simp [step, h]
+  | cons a as ih =>
+    intro s s' hr h
+    simp only [run] at hr
+    split at hr
+    · rename_i s1 hs1; exact ih hr (stable hs1 h)
+    · simp at hr
+
+/-- both ways of closing a response (the caller's `Close`, a failed read) leave it closed -/
+theorem C06_closing_marks_closed {cfg s s'} {i : Nat} (hs : step cfg s (.close i) = some s' ∨ step cfg s (.readErr i) = some s') :
+    ∃ k, s.rpc i = .done (.reply k) false ∧ s'.rpc i = .done (.reply k) true := by
+  rcases hs with hs | hs <;> simp only [step] at hs <;> (split at hs) <;> (try split at hs) <;> (try split at hs) <;>
+    (try simp at hs) <;> (try subst hs) <;> simp_all [upd]
 
 /-- the hand-off (the serve loop's send) only ever completes with a requester that is inside its
 `select`, i.e. whose channel has not been closed (closing needs `done`) -/
@@ -319,7 +359,7 @@ def cfgSnapshot : Cfg := { ids := fun i => i, kinds := fun _ => .iq, derived := 
 theorem C06_progress_serve_fails_without_fix :
     ¬ (∀ s, Reach cfgSnapshot s → ServeProgress cfgSnapshot s) := by
   intro h
-  have hr : ∃ s, run cfgSnapshot init [.call 0, .read ⟨.iq, 0, true, .stream⟩, .sendFail 0, .dereg 0] = some s := by
+  have hr : ∃ s, run cfgSnapshot init [.call 0, .read ⟨.iq, 0, true, .stream, false⟩, .sendFail 0, .dereg 0] = some s := by
     simp [run, step, init, lookup, upd, cfgSnapshot, nsMatch]
   obtain ⟨s, hs⟩ := hr
   have := h s (reach_run Reach.init hs)
@@ -329,7 +369,7 @@ theorem C06_progress_serve_fails_without_fix :
 
 /-- the same schedule is harmless in the repaired code -/
 example : ∃ s, run { cfgSnapshot with derived := true } init
-    [.call 0, .read ⟨.iq, 0, true, .stream⟩, .sendFail 0, .dereg 0, .abandon] = some s ∧ s.spc = .idle := by
+    [.call 0, .read ⟨.iq, 0, true, .stream, false⟩, .sendFail 0, .dereg 0, .abandon] = some s ∧ s.spc = .idle := by
   simp [run, step, init, lookup, upd, cfgSnapshot, ctxDone, nsMatch]
 
 /-! ### receipts helper -/
